@@ -30,7 +30,14 @@ MAIN = gevent.getcurrent()
 HOST = 'h'
 
 
-def mk_server(port):
+_Member = collections.namedtuple('_Member', 'service_endpoint additional_endpoints')
+
+
+def mk_server(port, endpoint_name=None):
+  if endpoint_name:
+    # the balancer is configured to use a named endpoint: the member's service endpoint is a different address
+    return _Member(ScalesUriParser.Endpoint('svc.' + HOST, port), {endpoint_name: ScalesUriParser.Endpoint(HOST, port),
+                                                                    'other': ScalesUriParser.Endpoint('other.' + HOST, port)})
   return ScalesUriParser.Server(ScalesUriParser.Endpoint(HOST, port))
 
 
@@ -139,6 +146,10 @@ class HSSP(ServerSetProvider):
     self.notifier = None
     self.delivered_before_init = 0
 
+  @property
+  def endpoint_name(self):
+    return self.run.cfg.get('endpoint_name')
+
   def Initialize(self, on_join, on_leave):
     self.on_join = on_join
     self.on_leave = on_leave
@@ -149,10 +160,10 @@ class HSSP(ServerSetProvider):
     while True:
       kind, port = self.q.get()
       fn = self.on_join if kind == 'join' else self.on_leave
-      fn(mk_server(port))
+      fn(mk_server(port, self.endpoint_name))
 
   def GetServers(self):
-    snap = [mk_server(p) for p in self.members]
+    snap = [mk_server(p, self.endpoint_name) for p in self.members]
     if self.delay:
       gevent.sleep(self.delay)
     return snap
